@@ -8,11 +8,63 @@ From SG Require Import Base.Prelude Base.GoInt Base.GoFloat Model.Rules.
 From Gen Require Import Leaf_gen.
 #[local] Open Scope Z_scope.
 
-Ltac bools :=
+(* ---- one shape-independent script for every "regenerated decision = model decision" lemma of this file ----
+   [leaf_decide]: case-split on the condition of every if-then-else of the goal (outermost first, so that
+   guarded sub-terms are only visited on the paths that reach them), then in every leaf: evaluate; if the
+   two sides still differ the path must be contradictory - break the recorded conditions into their atoms
+   (andb / orb / negb), use them to rewrite what is left of the goal, split the remaining atoms, and close
+   with reflexivity / lia (integer atoms) / congruence (the same float atom with two truth values).
+   Nothing here depends on the order or nesting of the tests in the generated term. *)
+Ltac split_ifs :=
   repeat match goal with
-         | |- context [(?a =? ?b)%Z] => destruct (a =? b)%Z
-         | |- context [float64_equals ?a ?b] => destruct (float64_equals a b)
-         end; try reflexivity.
+         | |- context [if ?c then _ else _] => destruct c eqn:?
+         end.
+Ltac norm_hyps :=
+  repeat match goal with
+         | H : negb _ = true |- _ => apply Bool.negb_true_iff in H
+         | H : negb _ = false |- _ => apply Bool.negb_false_iff in H
+         | H : andb _ _ = true |- _ => apply Bool.andb_true_iff in H; destruct H
+         | H : orb _ _ = false |- _ => apply Bool.orb_false_iff in H; destruct H
+         | H : andb _ _ = false |- _ => apply Bool.andb_false_iff in H; destruct H
+         | H : orb _ _ = true |- _ => apply Bool.orb_true_iff in H; destruct H
+         | H : true = false |- _ => discriminate H
+         | H : false = true |- _ => discriminate H
+         end.
+Ltac split_hyp_ifs :=
+  repeat match goal with
+         | H : context [if ?c then _ else _] |- _ => destruct c eqn:?
+         end.
+Ltac use_hyps :=
+  repeat match goal with
+         | H : ?a = true |- context [?a] => rewrite H
+         | H : ?a = false |- context [?a] => rewrite H
+         end.
+Ltac split_atoms :=
+  repeat match goal with
+         | |- context [Z.eqb ?a ?b] => destruct (Z.eqb a b) eqn:?
+         | |- context [Z.ltb ?a ?b] => destruct (Z.ltb a b) eqn:?
+         | |- context [Z.leb ?a ?b] => destruct (Z.leb a b) eqn:?
+         | |- context [PrimFloat.ltb ?a ?b] => destruct (PrimFloat.ltb a b) eqn:?
+         | |- context [PrimFloat.leb ?a ?b] => destruct (PrimFloat.leb a b) eqn:?
+         | |- context [PrimFloat.eqb ?a ?b] => destruct (PrimFloat.eqb a b) eqn:?
+         | |- context [float64_equals ?a ?b] => destruct (float64_equals a b) eqn:?
+         | |- context [items_eqb ?a ?b] => destruct (items_eqb a b) eqn:?
+         end.
+Ltac z_facts :=
+  repeat match goal with
+         | H : Z.eqb _ _ = true |- _ => apply Z.eqb_eq in H
+         | H : Z.eqb _ _ = false |- _ => apply Z.eqb_neq in H
+         | H : Z.ltb _ _ = true |- _ => apply Z.ltb_lt in H
+         | H : Z.ltb _ _ = false |- _ => apply Z.ltb_ge in H
+         | H : Z.leb _ _ = true |- _ => apply Z.leb_le in H
+         | H : Z.leb _ _ = false |- _ => apply Z.leb_gt in H
+         end.
+Ltac leaf_close := first [ reflexivity | congruence | (exfalso; z_facts; lia) | (z_facts; lia) ].
+Ltac leaf_decide :=
+  cbv zeta; split_ifs;
+  first [ reflexivity
+        | repeat (progress (norm_hyps; split_hyp_ifs)); use_hyps; cbn [andb orb negb];
+          first [ leaf_close | split_atoms; cbn [andb orb negb]; leaf_close ] ].
 
 Lemma flow_isEqualsTo_ok o n :
   flow_isEqualsTo (f_cb n) (f_highmem n) (f_lowmem n) (f_maxq n) (f_memhigh n) (f_memlow n) (f_rel n) (f_interval n)
@@ -20,45 +72,37 @@ Lemma flow_isEqualsTo_ok o n :
     (f_cb o) (f_highmem o) (f_lowmem o) (f_maxq o) (f_memhigh o) (f_memlow o) (f_rel o) (f_interval o)
     (f_thr o) (f_tcs o) (f_wcold o) (f_wperiod o) (f_ref o =? f_ref n) (f_res o =? f_res n)
   = flow_equal o n.
-Proof.
-  unfold flow_isEqualsTo, flow_equal. cbv iota.
-  match goal with |- (if negb ?X then false else true) = _ => destruct X eqn:E end; reflexivity.
-Qed.
+Proof. unfold flow_isEqualsTo, flow_equal. leaf_decide. Qed.
 
 Lemma flow_isStatReusable_ok o n :
   flow_isStatReusable (f_cb n) (f_rel n) (f_interval n) (f_tcs n) false
     (f_cb o) (f_rel o) (f_interval o) (f_tcs o) (f_ref o =? f_ref n) (f_res o =? f_res n)
   = flow_stat_reusable o n.
-Proof. unfold flow_isStatReusable, flow_stat_reusable, flow_need_stat. bools. Qed.
+Proof. unfold flow_isStatReusable, flow_stat_reusable, flow_need_stat. leaf_decide. Qed.
 
 Lemma circuitbreaker_isEqualsTo_ok o n :
   circuitbreaker_isEqualsTo (b_maxrt n) (b_minreq n) (b_probe n) (b_retry n) (b_interval n) (b_buckets n) (b_strategy n) (b_thr n) false
     (b_maxrt o) (b_minreq o) (b_probe o) (b_retry o) (b_interval o) (b_buckets o) (b_strategy o) (b_thr o) (b_res o =? b_res n)
   = brk_equal o n.
-Proof.
-  unfold circuitbreaker_isEqualsTo, brk_equal. cbv iota.
-  match goal with |- (if negb ?X then _ else _) = _ => destruct X eqn:E end; cbn [negb andb]; [|reflexivity].
-  destruct (b_strategy n =? 0); [reflexivity|]. destruct (b_strategy n =? 1); [reflexivity|].
-  destruct (b_strategy n =? 2); reflexivity.
-Qed.
+Proof. unfold circuitbreaker_isEqualsTo, brk_equal. leaf_decide. Qed.
 
 Lemma circuitbreaker_isStatReusable_ok o n :
   circuitbreaker_isStatReusable (b_interval n) (b_buckets n) (b_strategy n) false
     (b_interval o) (b_buckets o) (b_strategy o) (b_res o =? b_res n)
   = brk_stat_reusable o n.
-Proof. unfold circuitbreaker_isStatReusable, brk_stat_reusable. bools. Qed.
+Proof. unfold circuitbreaker_isStatReusable, brk_stat_reusable. leaf_decide. Qed.
 
 Lemma hotspot_Equals_ok o n :
   hotspot_Equals (h_burst n) (h_cb n) (h_dur n) (h_maxq n) (h_metric n) (h_pidx n) (h_cap n) (h_thr n) (h_pkey o =? h_pkey n)
     (h_burst o) (h_cb o) (h_dur o) (h_maxq o) (h_metric o) (h_pidx o) (h_cap o) (h_thr o) (h_res o =? h_res n)
     (items_eqb (h_items o) (h_items n))
   = hot_equal o n.
-Proof. unfold hotspot_Equals, hot_equal. destruct (items_eqb (h_items o) (h_items n)); bools. Qed.
+Proof. unfold hotspot_Equals, hot_equal. leaf_decide. Qed.
 
 Lemma hotspot_IsStatReusable_ok o n :
   hotspot_IsStatReusable (h_cb n) (h_dur n) (h_metric n) (h_cap n) (h_cb o) (h_dur o) (h_metric o) (h_cap o) (h_res o =? h_res n)
   = hot_stat_reusable o n.
-Proof. unfold hotspot_IsStatReusable, hot_stat_reusable. bools. Qed.
+Proof. unfold hotspot_IsStatReusable, hot_stat_reusable. leaf_decide. Qed.
 
 Print Assumptions flow_isEqualsTo_ok.
 Print Assumptions flow_isStatReusable_ok.
@@ -99,9 +143,10 @@ Definition flow_of_step (idx : nat) (s : option nat + option nat) : leaf_flow (Z
 Ltac reuse_step :=
   intros; unfold calc_reuse_step, flow_of_step; cbv zeta;
   repeat match goal with
-         | |- context [if ?c then _ else _] => destruct c eqn:?
          | |- context [match ?x with Some _ => _ | None => _ end] => destruct x eqn:?
-         end; cbn [ridx negb] in *; try reflexivity; try discriminate; try lia.
+         end;
+  cbn [ridx]; split_ifs; cbn [ridx negb] in *;
+  first [ reflexivity | discriminate | (exfalso; norm_hyps; z_facts; first [ lia | congruence ]) ].
 
 (* while the search goes on no equal rule has been seen: equalIdx_in = -1 *)
 Lemma flow_calcReuse_step_ok r (o : ctrl frule) idx reuse :
